@@ -281,6 +281,13 @@ def rule_display_fields(prog):
                                     used.add(bd["name"])
             out.add("Display for DataType", "shows int / boolean / array size and element type", {"int", "boolean"} <= set(lits) and {"size", "base_type"} <= used,
                     c.loc(b["sp"]), "literals %s, array fields used %s" % (lits[:6], sorted(used)))
+            # "fully resolved type": the element type is printed by its structure, never by the name of the declaration that created it
+            # (also through helper methods of DataType the impl calls)
+            reads_creator = "creator" in used or any(
+                f_.get("k") == "Field" and f_["name"] == "creator" for f_ in hir.nodes_deep(prog, b["body"], 2, crate=c))
+            out.add("Display for DataType", "an array type is printed by its structure, not by the name of its creator", not reads_creator,
+                    c.loc(b["sp"]), "the Array arm reads `creator`: an element type that was declared (`type vector = array [5] of int`) is shown as "
+                    "`array [3] of vector` - hover and signature help promise the fully resolved type", ("resolved",))
             continue
         def self_fields(root):
             """fields of self read below root, also inside methods of the same type that are called on self (`self.parameter_list()`)"""
@@ -1587,6 +1594,12 @@ def rule_position_token(prog):
                             kinds.add(last(co))
                         elif y["res"].get("k") == "Local" and "TokenType" in c.tstr(y["t"]) and "Token>" not in c.tstr(y["t"]):
                             other = True     # compared with a kind handed in from outside: unknown
+            if kinds == {"Else"} and not other:
+                # if statements nest as well: the first `else` of an if statement's tokens may belong to an if inside its then-branch
+                out.add(b["d"], "the `else` of an if statement is not searched as the first `else` of its tokens", False, c.loc(mc["sp"]),
+                        "`.%s(..)` stops at the first `else` of the slice; for `if (a) { if (b) x := 1; else x := 2; y := 3; }` that is the inner "
+                        "one: every position behind it is taken to be in the else branch of the outer statement, statement starts there get "
+                        "variables only" % mc["m"], ("nest",))
             if kinds and kinds <= CLOSERS and not other:
                 out.add(b["d"], "the closing bracket of a construct is not searched as the first closing bracket of its tokens", False, c.loc(mc["sp"]),
                         "`.%s(..)` stops at the first %s of the slice; brackets nest, so for `f(g(1), 2)` / `a[b[0]]` this is the inner one and "
